@@ -124,7 +124,7 @@ def run_heap_family(prop, tier, seed, configs, scratch, assumptions, level_note)
                 if not s.get("paths_complete", True):
                     cov["exhaustive"] = False
                 centry["replays"].append({k: s[k] for k in ("conc", "derived", "behaviours", "steps", "api_calls", "distinct_state_ops",
-                                                            "states_visited", "graph_op_instances", "cover_runs", "paths_exhaustive",
+                                                            "states_visited", "graph_op_instances", "cover_runs", "spare_capacity_detours", "paths_exhaustive",
                                                             "paths_depth", "paths_complete", "walks", "walk_len", "timed_out")})
                 if len(cov["samples"]) < 4 and s.get("samples"):
                     cov["samples"].append(dict(config=name, behaviour=s["samples"][-1]))
